@@ -429,10 +429,8 @@ impl SoVersion {
                     if i >= comps.len() - 1 {
                         break;
                     }
-                    if let Some((pre, c)) = comp
-                        .char_indices()
-                        .rev()
-                        .find(|(_, c)| !c.is_ascii_digit())
+                    if let Some((pre, c)) =
+                        comp.char_indices().rev().find(|(_, c)| !c.is_ascii_digit())
                     {
                         // The suffix starts after the whole (possibly multi-byte) character
                         if let Ok(pre) = comp[pre + c.len_utf8()..].parse() {
